@@ -37,7 +37,7 @@ func init() {
 			}
 			bounds, fastBounds, secs := []int{0, 1}, []int{2}, 100
 			if c.Tier == "thorough" {
-				bounds, fastBounds, secs = []int{0, 1, 2}, []int{2, 3}, 1500
+				bounds, fastBounds, secs = []int{0, 1, 2}, []int{2, 3}, 600
 			}
 			// scenarios that need the rescan-batch overlay are left out (and named in the
 			// evidence) when the current tree does not contain the line the overlay rewrites
